@@ -4,6 +4,7 @@ package main
 
 import (
 	"fmt"
+	"go/token"
 	"go/types"
 	"reflect"
 	"strings"
@@ -81,15 +82,29 @@ func ruleC17TryAllRegions(c *Ctx) {
 				return
 			}
 			e := errOfCall(i)
-			if e == nil {
-				return
-			}
-			// only per-region steps: calls on the client / crypto
+			// only per-region steps: calls on the client / crypto — or a helper of the plugin that contains such steps
+			// and reports failure through an error or a bool result
 			cc := callOf(i)
+			var okFlag ssa.Value
 			if !cc.IsInvoke() {
-				if g := staticCallee(i); g == nil || g.Signature.Recv() == nil || !strings.Contains(strings.ToLower(namedTypeName(g.Signature.Recv().Type())), "client") {
-					return
+				g := staticCallee(i)
+				isClientMethod := g != nil && g.Signature.Recv() != nil && strings.Contains(strings.ToLower(namedTypeName(g.Signature.Recv().Type())), "client")
+				if !isClientMethod {
+					if g == nil || g.Blocks == nil || g.Pkg == nil || g.Pkg != f.Pkg || !regionStepHelper(c, u, g, name) {
+						return
+					}
+					if e == nil {
+						for _, pr := range resultsOfType(i, func(t types.Type) bool {
+							b, isB := t.Underlying().(*types.Basic)
+							return isB && b.Kind() == types.Bool
+						}) {
+							okFlag = pr[0]
+						}
+					}
 				}
+			}
+			if e == nil && okFlag == nil {
+				return
 			}
 			n++
 			c.CallSites++
@@ -100,7 +115,14 @@ func ruleC17TryAllRegions(c *Ctx) {
 			for _, b := range f.Blocks {
 				for _, s := range b.Succs {
 					for _, fct := range edgeFacts(b, s) {
-						if x, isNil, ok := nilTest(fct); ok && !isNil && strip(x) == e {
+						failure := false
+						if x, isNil, ok := nilTest(fct); ok && !isNil && e != nil && strip(x) == e {
+							failure = true
+						}
+						if okFlag != nil && fct.Sub == nil && strip(fct.V) == strip(okFlag) && !fct.True {
+							failure = true
+						}
+						if failure {
 							tested = true
 							found, t2 := pathSearchAt(s, 0, func(j ssa.Instruction) pathAction {
 								if j.Block() == head && indexOf(j) == 0 {
@@ -141,6 +163,97 @@ func ruleC17TryAllRegions(c *Ctx) {
 			c.check(!inLoop, name+"/error-return", u.ipos(r), "error return outside the region loop", "an error is returned from inside the region loop")
 		}
 	}
+}
+
+// regionStepHelper: g (a function of the plugin) contains per-region steps (KMS / AEAD calls with an error result) and
+// every error edge of such a step inside g leads only to returns that report failure (false / a non-nil error).
+// The obligations inside g are recorded under the caller's name.
+func regionStepHelper(c *Ctx, u *Universe, g *ssa.Function, name string) bool {
+	steps := 0
+	okAll := true
+	allInstrs(g, func(i ssa.Instruction) {
+		if _, ok := i.(*ssa.Call); !ok {
+			return
+		}
+		e := errOfCall(i)
+		if e == nil {
+			return
+		}
+		cc := callOf(i)
+		if !cc.IsInvoke() {
+			if h := staticCallee(i); h == nil || h.Signature.Recv() == nil || !strings.Contains(strings.ToLower(namedTypeName(h.Signature.Recv().Type())), "client") {
+				return
+			}
+		}
+		steps++
+		for _, b := range g.Blocks {
+			for _, s := range b.Succs {
+				for _, fct := range edgeFacts(b, s) {
+					x, isNil, ok := nilTest(fct)
+					if !ok || isNil || strip(x) != e {
+						continue
+					}
+					found, _ := pathSearchAt(s, 0, func(j ssa.Instruction) pathAction {
+						r, isR := j.(*ssa.Return)
+						if !isR {
+							return pathContinue
+						}
+						last := returnedValue(r, len(r.Results)-1)
+						if isErrorType(last.Type()) {
+							if isNilValue(last) {
+								return pathFound
+							}
+							return pathStop
+						}
+						if k, isC := constOf(last); isC && k.ExactString() == "false" {
+							return pathStop
+						}
+						return pathFound
+					}, nil)
+					if found {
+						okAll = false
+					}
+				}
+			}
+		}
+	})
+	if steps == 0 {
+		return false
+	}
+	c.FuncsAnalysed[shortName(g)] = true
+	c.check(okAll, name+"/helper "+g.Name(), u.pos(g.Pos()), "every failing step in the helper reports failure to the loop", "a failing per-region step inside "+g.Name()+" can return success to the region loop")
+	return true
+}
+
+// drainsChannel: g receives from a channel until it is closed: it contains a comma-ok receive and every return of g is
+// taken on the not-ok edge of such a receive.
+func drainsChannel(g *ssa.Function) bool {
+	if g == nil || g.Blocks == nil {
+		return false
+	}
+	isRecvOk := func(v ssa.Value) bool {
+		ex, ok := v.(*ssa.Extract)
+		if !ok || ex.Index != 1 {
+			return false
+		}
+		un, isRecv := ex.Tuple.(*ssa.UnOp)
+		return isRecv && un.Op == token.ARROW
+	}
+	has := false
+	allInstrs(g, func(i ssa.Instruction) {
+		if un, ok := i.(*ssa.UnOp); ok && un.Op == token.ARROW && un.CommaOk {
+			has = true
+		}
+	})
+	if !has {
+		return false
+	}
+	for _, r := range returnsOf(g) {
+		if !guardedBy(r, false, isRecvOk) {
+			return false
+		}
+	}
+	return true
 }
 
 func ruleC17ClientOrder(c *Ctx) {
@@ -421,7 +534,7 @@ func ruleC17EntryPerSuccess(c *Ctx) {
 				})
 				viaHelper := false
 				allInstrs(ek, func(j ssa.Instruction) {
-					if g := staticCallee(j); g != nil && g.Name() == "encryptRegionalKEKs" && instrDominates(j, i) {
+					if g := staticCallee(j); g != nil && instrDominates(j, i) && (g.Name() == "encryptRegionalKEKs" || (g.Pkg == ek.Pkg && drainsChannel(g))) {
 						viaHelper = true
 					}
 				})
